@@ -327,6 +327,14 @@ def check_datasets(unit, res):
         ok = ok and np.allclose(ds.in_data.min(axis=0), 0, atol=1e-12) and np.allclose(ds.in_data.max(axis=0), 1, atol=1e-12)
         ok = ok and np.all(ds.in_data >= -1e-12) and np.all(ds.in_data <= 1 + 1e-12)
         ok = ok and np.allclose(ds.out_data.mean(axis=0), 0, atol=1e-9) and np.allclose(ds.out_data.std(axis=0), 1, atol=1e-9)
+        # nothing may be remembered between instantiations: a second and third instance are identical to the first
+        for rep in (2, 3):
+            ds2 = get_dataset_instance(name)
+            res["evaluations"] += 1
+            if not (np.array_equal(ds2.in_data, ds.in_data) and np.array_equal(ds2.out_data, ds.out_data)):
+                res["violations"].append(core.violation(PROPERTY, {"kind": "dataset-instances-differ", "dataset": name}, case0, "identical instances", f"instance #{rep} differs",
+                                                        f"dataset {name}: instance #{rep} created in the same process differs from the first one (max |diff| out_data = {float(np.max(np.abs(ds2.out_data - ds.out_data))):.3g})"))
+                return
         if not ok:
             res["violations"].append(core.violation(PROPERTY, {"kind": "dataset-scaling", "dataset": name}, case0, "inputs in [0,1] (min 0,max 1), outputs mean 0 / var 1, declared sizes",
                                                     {"shape": [list(ds.in_data.shape), list(ds.out_data.shape)], "in_min": ds.in_data.min(axis=0).tolist(), "in_max": ds.in_data.max(axis=0).tolist(),
